@@ -189,8 +189,12 @@ def check_world(run: Run, stream, case, world: E.World, mirror: E.Mirror, lean_o
                 tags = [o for o in [root_obj] + list(root_obj.iterate_descendants()) if isinstance(o, TagNode)]
             sub = [o for o in tags if run.rng.random() < 0.6]
             run.rng.shuffle(sub)
+            # the signature takes any iterable: lists, tuples and one-shot iterators alike
+            arg = run.rng.choice([lambda x: x, tuple, iter, reversed, lambda x: (o for o in x)])(sub)
+            if not isinstance(arg, (list, tuple)):
+                sub = list(reversed(sub)) if type(arg).__name__ == "list_reverseiterator" else sub
             try:
-                got = [world.handle.get(id(o)) for o in _sort_nodes_in_document_order(sub)]
+                got = [world.handle.get(id(o)) for o in _sort_nodes_in_document_order(arg)]
                 want = [i for i in order if i in {world.handle.get(id(o)) for o in sub}]
                 if got != want:
                     run.violation(stream, case, {"relation": "document order sort", "impl": got, "tree": want})
